@@ -31,6 +31,8 @@ def run(tier: str, keep: bool = False) -> int:
                 limit=400 if q else None)
     r.schedules("cancel", 'FamAll(3, {3}, {"CRC32", "NULL"})', ["C16", "C12", "C10"], K=0, cancels=["S", "D"], twin=True,
                 limit=300 if q else None)
+    r.schedules("cancelDisp", 'Numbered({ [c EXCEPT !.disp = TRUE] : c \\in FamAll(3, {3}, {"CRC32"}) })', ["C16", "C12", "C10"], K=0,
+                cancels=["S", "D"], twin=True, limit=300 if q else None)
     r.schedules("multi", 'Numbered({ [Base(2) EXCEPT !.file = FileOf(2), !.more = << [putMode |-> "UNACK", putClosure |-> "true", gap |-> 0] >>] })',
                 props, K=0, twin=True)
     r.judge()
